@@ -260,7 +260,14 @@ impl BuildJob<'_> {
         let mut argv: Vec<OsString> = vec![
             OsString::from("sh"),
             OsString::from("-e"),
-            df.do_file.clone(),
+            // (a script whose name starts with a dash must not be read as an option)
+            if OsBytes::new(&df.do_file).next() == Some(b'-') {
+                let mut p = OsString::from("./");
+                p.push(&df.do_file);
+                p
+            } else {
+                df.do_file.clone()
+            },
             arg1,
             arg2,
             // $3 temp output file name
